@@ -498,6 +498,19 @@ func (c *Canon) atom(e ast.Expr) *F {
 					return f
 				}
 			}
+			if x.Op == token.EQL || x.Op == token.NEQ {
+				if t := c.Info.TypeOf(x.X); t != nil {
+					if b, ok := t.Underlying().(*types.Basic); ok && b.Info()&types.IsBoolean != 0 {
+						// boolean equality is an equivalence of formulas
+						fa, fb := c.Formula(FromExpr(x.X)), c.Formula(FromExpr(x.Y))
+						iff := Or(And(fa, fb), And(Not(fa), Not(fb)))
+						if x.Op == token.NEQ {
+							return Not(iff)
+						}
+						return iff
+					}
+				}
+			}
 			return MakeCmp(x.Op, l, r, lc, rc)
 		}
 	}
